@@ -20,6 +20,8 @@ def neighbourhood(script):
 def run(chk):
     c_exe, m_exe = vlib.prepare_area(chk, vec, leanchecker=True)
     vec_tie.tie_run(chk, vec_tie.TIE_BY_PROP["C10"])
+    from areas import swap_tie
+    swap_tie.tie_run(chk, "vec2", swap_tie.TIE_BY_PROP["C10"])
     if c_exe:
         quick = chk.tier == "quick"
         vlib.run_scripts(chk, vec, c_exe, m_exe, vec.corpus(PROP), vec.oracle)
